@@ -1314,6 +1314,12 @@ static void runFm(const Case &c) {
         ext += (id ? "," : "") + (s ? "x" + hex(s, strlen((char *)s)) : string("N"));
         delete[] s;
       }
+      { // the table scan, string by string
+        string flaw; vector<string> tv = drainStrs(d->extractTable(), flaw);
+        ext += ";";
+        for (size_t t = 0; t < tv.size(); t++) ext += (t ? "," : "") + string("x") + hex(tv[t]);
+        if (!flaw.empty()) ext += ",F" + flaw;
+      }
       emit("FM n=%u el=%zu ml=%u bwt=%s occ=%s alpha=%s ss=%u sampled=%s samp=%s loc=%s abs=%s pre=%s sub=%s ext=%s", fm->n,
            (size_t)d->numElements(), (uint)d->maxLength(), bwt.c_str(), occ.c_str(), alpha.c_str(), fm->samplesuff, sampled.empty() ? "-" : sampled.c_str(),
            samp.empty() ? "-" : samp.c_str(), loc.empty() ? "-" : loc.c_str(), qa.empty() ? "-" : qa.c_str(), pre.empty() ? "-" : pre.c_str(),
